@@ -1009,12 +1009,13 @@ func skipTableRule(c *core.Ctx, g skipGroup) {
 var anchorTable = map[string][][2]string{
 	"C08": {{"controller/config", "CreateWithConfig"}, {"controller/config", "Options.AddFlags"}},
 	"C09": {{"controller/config", "CreateWithConfig"}, {"controller/config", "Options.AddFlags"}},
-	"C12": {{"controller/config", "CreateWithConfig"}, {"controller/config", "Options.AddFlags"}},
+	"C12": {{"controller/config", "CreateWithConfig"}, {"controller/config", "Options.AddFlags"}, {"controller/services", "Services.withManager"}, {"utils/workqueue", "+WorkQueue.Start"}, {"haproxy/socket", "+buildProcTable"}, {"haproxy/socket", "+buildProcTable24"}, {"haproxy", "CreateInstance"}, {"haproxy", "newConnections"}, {"haproxy/socket", "+tokenizer.readField"}},
 	"C14": {{"controller/reconciler", "+hdlr.Generic"}, {"controller/reconciler", "+hdlr.Create"}, {"controller/reconciler", "+hdlr.Update"}, {"controller/reconciler", "+hdlr.Delete"}},
-	"C13": {{"controller/config", "CreateWithConfig"}, {"controller/config", "Options.AddFlags"}, {"utils/workqueue", "New"},
-		{"utils", "+queue.RunWithContext"}, {"utils", "+queue.Add"}, {"utils", "+queue.AddAfter"}, {"utils", "+queue.Notify"}, {"utils", "+queue.Remove"}, {"utils", "+NewRateLimitingQueue"}, {"utils", "+NewFailureRateLimitingQueue"}, {"utils", "+NewQueue"}},
-	"C17": {{"controller/config", "CreateWithConfig"}, {"controller/config", "Options.AddFlags"}},
+	"C13": {{"controller/config", "CreateWithConfig"}, {"controller/config", "Options.AddFlags"}, {"utils/workqueue", "New"}, {"controller/services", "Services.withManager"},
+		{"utils", "+queue.RunWithContext"}, {"utils", "+queue.Add"}, {"utils", "+queue.AddAfter"}, {"utils", "+queue.Notify"}, {"utils", "+queue.Remove"}, {"utils", "+NewRateLimitingQueue"}, {"utils", "+NewFailureRateLimitingQueue"}, {"utils", "+NewQueue"}, {"utils/workqueue", "+WorkQueue.Start"}, {"utils/workqueue", "WorkQueue.AddAfter"}, {"utils/workqueue", "WorkQueue.Remove"}, {"controller/services", "+svcLeader.onStartedLeading"}, {"controller/services", "+svcLeader.onStoppedLeading"}, {"controller/services", "svcLeader.addRunnable"}, {"controller/services", "svcLeader.Start"}, {"utils/workqueue", "ingressReconciler.Forget"}, {"utils/workqueue", "ingressReconciler.NumRequeues"}, {"utils/workqueue", "reloadHAProxy.Forget"}, {"utils/workqueue", "reloadHAProxy.NumRequeues"}},
+	"C17": {{"controller/config", "CreateWithConfig"}, {"controller/config", "Options.AddFlags"}, {"controller/services", "Services.withManager"}, {"utils/workqueue", "+WorkQueue.Start"}, {"utils/workqueue", "WorkQueue.AddAfter"}, {"utils/workqueue", "WorkQueue.Remove"}, {"controller/services", "+svcLeader.onStartedLeading"}, {"controller/services", "+svcLeader.onStoppedLeading"}, {"controller/services", "svcLeader.addRunnable"}, {"controller/services", "svcLeader.Start"}, {"utils/workqueue", "ExponentialFailureRateLimiter"}, {"controller/services", "+svcAcmeClient.Start"}, {"controller/services", "+Services.acmeCheck"}, {"controller/services", "initSvcAcmeClient"}, {"controller/services", "initSvcLeader"}, {"acme", "NewSigner"}, {"acme", "NewClient"}},
 	"C19": {{"controller/config", "CreateWithConfig"}, {"controller/config", "Options.AddFlags"}},
+	"C02": {{"haproxy", "CreateInstance"}, {"haproxy", "newConnections"}},
 	"C03": {{"controller/config", "CreateWithConfig"}},
 	"C11": {{"controller/config", "CreateWithConfig"}, {"converters/ingress/annotations", "updater.buildBackendDynamic"}},
 	"C07": {{"converters/ingress/annotations", "updater.buildGlobalPathTypeOrder"}},
